@@ -165,6 +165,7 @@ func (g *mgen) call(depth int) []interface{} {
 }
 
 func genC03(r *Rng, n int, tier string, emit func(Case)) {
+	var prevDoc []interface{}
 	for i := 0; i < n; i++ {
 		g := &mgen{r: r.Fork()}
 		rr := g.r
@@ -224,6 +225,14 @@ func genC03(r *Rng, n int, tier string, emit func(Case)) {
 		}
 		doc = append(doc, nText("end"))
 		data := J{"pn": rr.Range(1, 9), "ps": []string{"page", "<pg>"}[rr.Intn(2)], "xs": []interface{}{"e1", "e2", "e3"}[:rr.Range(0, 3)], "yes": true}
-		emit(Case{"kind": "render", "oracle": "pug", "doc": doc, "data": data, "bucket": "mixins", "depth": exprDepth(doc), "what": "mixin program"})
+		if prevDoc != nil && rr.Chance(1, 4) {
+			// the previous program (same mixin names, other bodies) lives next to this one in the same directory, under names
+			// sorting before and after it: each page keeps its own definitions
+			emit(Case{"kind": "render", "oracle": "pug", "doc": doc, "data": data, "siblings": []interface{}{prevDoc, prevDoc}, "bucket": "mixins+siblings",
+				"depth": exprDepth(doc), "what": "mixin program next to another page"})
+		} else {
+			emit(Case{"kind": "render", "oracle": "pug", "doc": doc, "data": data, "bucket": "mixins", "depth": exprDepth(doc), "what": "mixin program"})
+		}
+		prevDoc = doc
 	}
 }
